@@ -14,12 +14,12 @@ CHECKS = {
    level="model_checking",
    text="Each message's real EncodeAware/DecodeAware pair is executed symbolically with the protocol revision as ONE symbolic int (so every revision, hence both sides of every threshold, is covered by the version-comparison forks) and all field values symbolic; per path the solver decides (a) encoded bytes == bytes of an independent reference encoder with its own threshold table, (b) decode(encode(x)) == x with the fields absent at that revision zero, (c) the reader is exactly exhausted.",
    ref="DESIGN.md §4 C17",
-   note="bounds: integers all <128 plus each integer field alone over its full 64-bit range (quick: first field only for Query); strings of tied length 0..1/2 with free contents; <=1 setting and <=1 parameter (quick); OpenTelemetry span invalid (otel stubbed); Query decode below 54429 is rejected by design and not asserted; the reference encoder is trusted as the oracle (written from the protocol description, thresholds cross-checked once)"),
+   note="bounds: integers all <128 plus each integer field alone over its full 64-bit range (quick: first field only for Query); strings of tied length 0..1/2 with free contents; <=1 setting and <=1 parameter (quick); OpenTelemetry span: absent in the Query harness; VerifC17Span checks a valid span (trace id, span id, flags byte symbolic; trace state empty) against the reference and back, at every revision (otel's span-context accessors interpreted, the rest of otel stubbed); Query decode below 54429 is rejected by design and not asserted; the reference encoder is trusted as the oracle (written from the protocol description, thresholds cross-checked once)"),
  "C01": dict(
    level="model_checking",
    text="For each column type (31 generated fixed-width codecs, String, Bytes, Bool, UUID, FixedString(N), Nothing, Point, Interval, Enum8/16, DateTime, DateTime64(p)) and for Array/Nullable/LowCardinality/Map/Tuple compositions up to depth 2, the real EncodeBlock -> DecodeBlock path is executed symbolically with all cell values, string bytes, pre-existing buffer bytes and the protocol revision symbolic; the solver decides: prefix untouched, bytes independent of the buffer's prior content, typed decode == appended values, inferred decode (Results.Auto) == same name/type/values, reader exhausted. Both the default (unsafe) and the purego build are encoded for the leaf codecs.",
    ref="DESIGN.md §4 C01",
-   note="bounds: rows<=2 (quick)/3-4 (thorough), inner arrays/maps <=2, strings <=1-2 bytes, buffer prefix in {0,3,8} bytes, depth<=2; outside: dictionaries >3 entries (key-width switches), ColMap.Append(map) iteration order, JSON, non-UTC zones; Array(Array(T)), FixedString(N) with N not a power of two, Bytes, Point and Map are not inferable by the library and are checked typed only; reflect calls in ColAuto.Infer go through a method-set model; bswap.swap64 (asm) is modelled natively"),
+   note="bounds: rows<=2 (quick)/3-4 (thorough), inner arrays/maps <=2, strings <=1-2 bytes, buffer prefix in {0,3,8} bytes, depth<=2; Decimal(P, S) as servers spell it through Results.Auto() for every P in 1..76; outside: dictionaries >3 entries except the key-width boundaries of VerifC01Boundaries, ColMap.Append(map) iteration order, JSON, non-UTC zones; Array(Array(T)), FixedString(N) with N not a power of two, Bytes, Point and Map are not inferable by the library and are checked typed only; reflect calls in ColAuto.Infer go through a method-set model; bswap.swap64 (asm) is modelled natively"),
  "C07": dict(
    level="model_checking",
    text="For every block shape of C01 (all leaf codecs, compositions to depth 2) and every protocol message of C17 the library's own encoder output is cut at EVERY position 0..len-1 (enumerated) with symbolic contents and revision, and the real decoder (typed and inferred) is executed on the prefix; the assertion is a non-nil error on every path.",
@@ -39,12 +39,12 @@ CHECKS = {
    level="model_checking",
    text="For every column type and composition, every history of up to 3 (quick) / 4 (thorough) steps over {Append symbolic value, Reset, encode-without-reset, block decode of valid symbolic data into the used column, failed decode of a truncated block + Reset} is executed on ONE column object; after encode steps and at the end the bytes the used column produces (EncodeRawBlock: Prepare, state, column) are read back into a fresh column and the solver decides that they equal the harness' plain list of model values; decode-after-use must equal the decoded values. Values are symbolic, so 'same value again' and 'new value' are one path each and the solver picks the equality pattern.",
    ref="DESIGN.md §4 C16",
-   note="bounds: histories <=3/4 steps, strings 1 byte, inner arrays 1 element in quick (0..1 thorough), decode blocks of 0..2 rows, revision fixed 54460; WriteColumn path equivalence is C14's; Infer-in-history is not a step (types fixed per column)"),
+   note="bounds: histories <=3/4 steps, strings 1 byte, inner arrays 1 element in quick (0..1 thorough), decode blocks of 0..2 rows, revision fixed 54460; WriteColumn path equivalence is C14's; Infer-in-history is not a step (types fixed per column); LowCardinality(UInt8) additionally through histories of <=3/4 steps mixing server blocks with UInt8/16/32/64 keys (2-entry dictionary, 1..2 rows), relay-encode, Reset and Append"),
  "C20": dict(
    level="model_checking",
    text="The real conversion functions (ToDate/Date.Time, ToDate32, ToDateTime, ToDateTime64/DateTime64.Time at each precision 0..9, Precision.Scale, Int128/256 and UInt128/256 helpers, bin*/binPut*, IPv4/IPv6 mappings, Interval.Add) and the parts of package time they call (Unix, In, Zone, FixedZone, Add, IsZero) are executed symbolically; the raw value ranges over its WHOLE type or documented range (all 65536 Dates, all 2^32 DateTimes, Date32 1900..2299, DateTime64 1900..2299 per precision), the instant (sec,nsec) and the fixed zone offset (-12h..+14h) are symbolic; the solver (integer-with-wrap encoding, z3 5.1.0) decides value->time->value identity, calendar-day = floor((unix+offset)/86400), |time->value->time| < 1 tick and exactness on multiples of the tick.",
    ref="DESIGN.md §4 C20",
-   note="outside: named zones with DST (tzdata), AddDate's own calendar arithmetic (uninterpreted function of its arguments), intervals whose span exceeds time.Duration (about 292 years); netip 4/16-byte conversions modelled as identity; known finding: quarter added as 4 months (pinned by the repo's own test, so not repaired)"),
+   note="wide-integer helpers: inverse pairs AND value oracles (limbs) for the FromUInt64/FromInt constructors; outside: named zones with DST (tzdata), AddDate's own calendar arithmetic (uninterpreted function of its arguments), intervals whose span exceeds time.Duration (about 292 years); netip 4/16-byte conversions modelled as identity; known finding: quarter added as 4 months (pinned by the repo's own test, so not repaired)"),
  "C19": dict(
    level="model_checking",
    text="ColumnType.Base/Elem/Conflicts/decimalDowncast/normalizeCommas and ColAuto.Infer (with ColEnum.parse, ColDateTime64.Infer, ColMap.Infer, ColInterval.Infer, inferGenerated) are executed on type strings whose bytes are symbolic: (i) arbitrary strings up to 3-5 bytes (pairs for the relation), (ii) strings assembled from the library's vocabulary of 19 base names with symbolic or nested parameters (all ordered pairs), (iii) well-formed templates with symbolic digits / enumerated leaf types. Assertions: no panic, Conflicts(a,a)==false, Conflicts(a,b)==Conflicts(b,a), and on a nil error the created column's own Type() does not conflict with the request in either direction.",
